@@ -121,6 +121,7 @@ class Analysis:
         lock: dict[str, tuple] = {}          # spec lock state: key -> (identifier, deadline or None)
         bodies: dict[int, dict] = {}         # sections whose body is executing
         how_of: dict[int, str] = {}
+        callable_ttls: dict = {}             # decorated function of the run -> the ttls its calls asked for
         closed_gens: set[int] = set()        # generator sections whose lock was released while suspended at a yield
         now = 0
         version = 0
@@ -251,6 +252,12 @@ class Analysis:
                     self.tags.add("lock_command_at_the_instant_of_a_sweep_after_it")
             if kind == "sec_start":
                 started.add(e["sec"])
+                if (e.get("form") or "").startswith("cb") and e["via"] in ("deco", "gen"):
+                    fn = (e["via"], knum(e["key"]) // 100, e["wait"], e["ci"], e["form"])
+                    callable_ttls.setdefault(fn, set()).add(e["ttl"])
+                    self.tags.add("callable_ttl")
+                    if len(callable_ttls[fn]) > 1:
+                        self.tags.add("successive_calls_of_one_function_with_different_callable_ttls")
                 if e["via"] == "clock":
                     self.tags.add("cache_lock_true_section")
             elif kind == "outcome":
@@ -270,7 +277,8 @@ class Analysis:
                     want = None if si["ttl"] is None else si["ttl"] * 0.125
                     if e.get("ttl") != want and not (e.get("ttl") is None and want is None):
                         self.problem("correspondence", "ttl_lowering",
-                                     f"lock ttl written as {si['ttl'] is not None and lockrun.memhist.spell(si['ttl'], si.get('form') or 'f')!r} "
+                                     f"lock ttl written as {si['ttl'] is not None and lockrun.memhist.spell(si['ttl'], {'cb': 'f', 'cbtd': 'td'}.get(si.get('form'), si.get('form') or 'f'))!r}"
+                                     f"{' (returned for THIS call by the callable ttl of the decorated function)' if (si.get('form') or '').startswith('cb') else ''} "
                                      f"({si['ttl']} ticks = {want} s) reached the backend as expire={e.get('ttl')!r}")
                     if si.get("form") and si["form"] != "f":
                         self.tags.add("ttl_spelled_" + si["form"])
@@ -737,6 +745,10 @@ def gen_section(rng, nkeys, depth, outer, gated):
     form = gen_form(rng, ttl)
     if form:
         sec["form"] = form
+    if sec["via"] in ("deco", "gen") and rng.random() < 0.3:
+        # the ttl is a CALLABLE of the call's arguments: every section with the same decorator parameters calls the same
+        # decorated function of the run and asks for its own ttl (also none)
+        sec["form"] = rng.choice(["cb", "cb", "cbtd"])
     if sec["via"] == "gen" and sec["body"] and rng.random() < 0.6:
         # a consumer that does not drain the generator: every body step is followed by one chunk
         sec["consume"] = [rng.choice(["aclose", "aclosing", "abandon"]), rng.randrange(1, len(sec["body"]) + 1)]
@@ -1114,9 +1126,12 @@ EXHAUSTIVE = [
     ("body_raises_the_librarys_own_exception", {"cfg": "facade", "tasks": [
         [sec(0, 16, True, [["point"]], end="x:CacheBackendInteractionError"), sec(0, 16, True, [], via="deco", end="x:LockedError")],
         [sec(0, 16, True, [], ci=1, via="gen", end="x:NotConfiguredError")]]}),
+    ("callable_ttl_short_call_then_long_call", {"cfg": "facade", "tasks": [
+        [sec(1, 2, True, [], via="deco", form="cb"), sec(0, 40, True, [["sleep", 4], ["point"]], via="deco", form="cb")],
+        [sec(0, 8, True, [], via="deco", form="cb", ci=1)]]}),
     ("three_tasks_one_key", {"cfg": "raw", "tasks": [[sec(0, 4, True, [])], [sec(0, 4, True, [])], [sec(0, 4, False, [])]]}),
 ]
-NQUICK = 14      # the first NQUICK programs are enumerated in the quick tier as well
+NQUICK = 15      # the first NQUICK programs are enumerated in the quick tier as well
 
 
 def enumerate_all(case: dict, limit: int):
@@ -1371,7 +1386,7 @@ def canonical(case: dict) -> str:
 
 def run(chk: Check) -> int:
     proof = proof_stage(PROP, "driver_c06", chk.thorough) if not getattr(chk, "skip_proof", False) else None
-    n = chk.budget(2500, 20000)
+    n = chk.budget(2300, 20000)
     enum_limit = chk.budget(400, 6000)
     found = 0
     found_property = False
@@ -1475,7 +1490,7 @@ def run(chk: Check) -> int:
         case = gen_multi_case(chk.rng, i)
         submit(case, run_impl(case), f"multi-backend:{i}")
     flush()
-    nrace = chk.budget(500, 5000)
+    nrace = chk.budget(400, 5000)
     for i in range(nrace):
         if found >= 3:
             break
@@ -1544,6 +1559,7 @@ INTERESTING = {
     "contended_attempt_prefixed_owner_silent_default_backend_healthy",
     "exit_generator_closed_by_consumer", "ttl_timedelta_with_fraction_of_a_second",
     "exit_library_exception", "exit_other_exception_kind", "cache_lock_true_section",
+    "successive_calls_of_one_function_with_different_callable_ttls",
     "contended_attempt_behind_memory_limit_excluding_the_token",
 }
 
